@@ -3,8 +3,8 @@ package e2
 import (
 	"bytes"
 	"fmt"
-	"os"
 	"math/big"
+	"os"
 	"sort"
 	"strings"
 	"testing"
